@@ -34,7 +34,7 @@ def declare(rep):
     rep.rule("C02.angle-slots", "angle regularisation: each node receives the gradient slot whose argument is its own position; forces sum to zero", floor=9)
     rep.rule("C02.bending-sides", "bending: in each term of the hinge-angle gradients normal, angle and area belong to the same face of the hinge", floor=4)
     rep.rule("C02.ledger-all-or-none", "the forces of one zero-sum ledger (all add_force calls of one face / hinge) are applied under the same conditions", floor=4)
-    rep.rule("C02.slot-loop-bound", "no routine of class cell visits the node/face slots [0, live count): used elements behind a free slot would get no force", floor=5)
+    rep.rule("C02.slot-loop-bound", "no routine of class cell visits the node/face slots [0, live count): used elements behind a free slot would get no force", floor=3)
     rep.rule("C02.bending-stiffness", "bending: the forces on the four nodes of a hinge carry one common stiffness factor (their sum cannot vanish otherwise)", floor=1)
     rep.rule("C02.bending-receivers", "bending: the four hinge nodes (edge nodes, opposite nodes of f1 and f2) receive the gradients of their own slots", floor=4)
     rep.rule("C02.translation", "every internal force is invariant under a common translation of the node positions", floor=10)
